@@ -43,20 +43,23 @@ SPEC = dict(
     trusted_base=[
         "lean/Ecal/Model/Lexer.lean is a hand-written port of parser/lexer.go; its agreement with the Go lexer is tested on every run (this correspondence), not proved",
         "unicode.IsNumber is modelled exactly only for ASCII and Latin-1 (irrelevant for positions of the generated inputs)",
+        "the EOF clause (EOF line = line of the end of input; stale Pos/column = known finding eof-stale-position) is evaluated on every case, not proved",
         "errors_carry_token_pos: that parser.Error / util.RuntimeError copy Lline/Lpos of the offending token unchanged is checked by the planted-error cases, not proved (parser and interpreter are other properties' models)",
     ],
     assumptions=["sep cases: token lines are monotone along the token sequence, so the same-line-as-previous relation determines every "
                  "line comparison the parser makes (parser.go: run, ndReturn, ndIdentifier, hasMoreStatements) - by reading, not proved",
-                 "the EOF token has no first character: its (stale) Pos/Lpos are compared between model and code but not against a true position"],
+                 "the EOF token has no first character: the position asked for is the end of the input (the code's stale Pos/Lpos there is the known finding eof-stale-position); an EOF that follows an error token (the lexer has stopped) is compared between model and code only"],
     decode=decode,
 )
 
 META = dict(
     technique="Lean 4 theorems over an executable port of the lexer + differential correspondence with parser.LexToList, parser.Parse and the interpreter",
-    level_text=("Proof (about the lexer model): the line/lastnl bookkeeping step used by the whitespace skipper, the string lexer and the "
-                "block comment keeps 'line = number of newlines before pos, lastnl = offset after the last newline'; a token stamped in such a "
-                "state carries its true line and column; the # comment branch keeps the line but not the column (negative witness "
-                "'a # c\\nb' proved). Model tied to parser/lexer.go by an exhaustive-for-short / random-for-long differential run."),
+    level_text=("Proof (about the executable lexer model, all inputs): L.next satisfies the step hypotheses; skipWhiteSpace, the string lexer and the "
+                "block comment keep the line/lastnl bookkeeping true over any number of iterations; lexNumberBlock, lexTextBlock and the # comment "
+                "body never cross a newline; hence the invariant between tokens (lexer_pos_invariant) and token_positions_true_partial: every "
+                "emitted non-EOF token of every input carries the true line, and the true column unless the last newline before it ended a # "
+                "comment (classifier of the known finding; negative witness 'a # c\\nb' proved). Model tied to parser/lexer.go by an "
+                "exhaustive-for-short / random-for-long differential run; error positions and statement separation under comments are tested."),
     level_note=("Trusted: Lean kernel + propext/Classical.choice/Quot.sound; the correspondence harness. Known finding hash-comment-column "
                 "(pinned by TestObjectInstantiation) is reported, any other wrong position is a violation."),
 )
